@@ -66,12 +66,15 @@ Proof. exact rollback_queue_refuted. Qed.
    entry per insert and undoing the log restores the columns EXACTLY. *)
 Theorem C28_undo_succ_restores : forall (c : cols) (ins : list sins),
   NoDup (map si_pos ins) -> (forall i, In i ins -> wf_ins c i) ->
-  exists c' us, add_succ_with_undo c ins = Ok (c', us) /\ length us = length ins /                undo_succ c' us = Ok c.
+  exists c' us, add_succ_with_undo c ins = Ok (c', us) /\ length us = length ins /\
+                undo_succ c' us = Ok c.
 Proof. exact undo_succ_restores. Qed.
 Example C28_undo_succ_nonvacuous :
   let c := mkCols [0; 1; 0] [true; true; true] [Some 1; Some 1; Some 1] [false; false; true] [((9, [1]), Some 2%Z)] in
   let ins := [mkSI (12, [2]) 1 (Some 3%Z) 1 1; mkSI (12, [2]) 2 None 0 1] in
-  NoDup (map si_pos ins) /\ (forall i, In i ins -> wf_ins c i) /  exists c' us, add_succ_with_undo c ins = Ok (c', us) /    c_vis c' = [true; true; false] /\ c_top c' = [false; true; false] /\ c_cnt c' = [0; 2; 1].
+  NoDup (map si_pos ins) /\ (forall i, In i ins -> wf_ins c i) /\
+  exists c' us, add_succ_with_undo c ins = Ok (c', us) /\
+    c_vis c' = [true; true; false] /\ c_top c' = [false; true; false] /\ c_cnt c' = [0; 2; 1].
 Proof.
   cbv zeta. split; [repeat constructor; cbn; intuition discriminate|].
   split; [intros i [<-|[<-|[]]]; unfold wf_ins; cbn; repeat split; try reflexivity; lia|].
